@@ -117,7 +117,9 @@ class JunctionComparator:
                 if read_features_present[read_pos] != -1:
                     contradictory_region_pairs.append(((read_pos, read_pos), (SupplementaryMatchConstants.absent_position, isoform_pos)))
                     read_features_present[read_pos] = -1
-            else:
+            elif not left_of(read_junctions[read_pos], isoform_region):
+                # only junctions to the right of the isoform end the scan; the ones to the left of it (possible when
+                # the isoform has no introns at all) are skipped so that both sides are treated alike
                 break
             read_pos += 1
 
